@@ -51,6 +51,17 @@ def run (op : String) (j : Json) : Except String Json := do
     let B ← natOfJson (← field j "B")
     let g := Gen.C06.get_quantiles alpha (B : Rat)
     pure (Json.mkObj [("model", pairToJson (lowerQ alpha B, upperQ alpha B)), ("gen", pairToJson g)])
+  | "boot.bounds" =>
+    -- the clip bounds of a nonreporting unit as regenerated from `_generate_nonreporting_bounds`
+    let pev ← ratOfJson (← field j "pev")
+    let obs ← ratOfJson (← field j "obs")
+    let lb ← ratOfJson (← field j "lb")
+    let ub ← ratOfJson (← field j "ub")
+    if (← strOfJson (← field j "estimand")) == "y" then
+      pure (pairToJson (Gen.C06.y_lower_bound pev obs lb ub, Gen.C06.y_upper_bound pev obs lb ub))
+    else
+      let eb ← ratOfJson (← field j "eb")
+      pure (pairToJson (Gen.C06.z_lower_bound pev obs eb lb ub, Gen.C06.z_upper_bound pev obs eb lb ub))
   | "boot.quantile" =>
     let xs ← listOf ratOfJson (← field j "xs")
     let q ← ratOfJson (← field j "q")
